@@ -5,7 +5,7 @@ PROP = {
     "rule": "Each case is one operand tuple (a, b, clamp bound c, opposite-signedness operand m, scalar s; or a vector, a scalar shift count cast to each of the "
             "eight count types and per-lane IVec/UVec counts; or an iterator of 0..8 vectors) evaluated by every operation and operator form of one of the 27 integer "
             "vector types in one build profile (release = wrapping, chk = overflow-checks + debug-assertions). Pair sweeps enumerate operand pairs: all 65 536 pairs "
-            "of the 8-bit types in each lane position with 1 elsewhere and in all lanes at once (every lane meets every pair), strided (quick) or all 2^32 (thorough) "
+            "of the 8-bit types in each lane position with 1 elsewhere and in all lanes at once (every lane meets every pair), strided (quick: every 4099th; thorough: all 2^32 in the release build, every 16th in the chk build) "
             "pairs of the 16-bit types, all pairs of the boundary values of every type in every lane position. A case is non-trivial when some operand lane is a "
             "boundary value (0, 1, -1, MIN, MAX, MIN+1, MAX-1), or add/sub/mul overflows, saturates, returns None or divides by zero in some lane, or a shift count "
             "is 0, negative or >= width-1; distinct = distinct hash of (type, operand words), enumerations count their own indices.",
@@ -19,7 +19,7 @@ PROP = {
     "level_text": "Generated-input search: every arithmetic, bit, shift (8 scalar count types + IVec/UVec counts), min/max/clamp, abs/signum, checked_/wrapping_/saturating_ "
                   "(incl. *_unsigned / *_signed), euclid, distance, horizontal and Sum/Product operation of the 27 integer vector types, in every operator form, is compared lane "
                   "by lane with the Rust primitive; an operation must panic exactly when some lane's primitive panics in the same profile (release and overflow-checks). "
-                  "All 8-bit operand pairs are enumerated in every lane position; 16-bit pairs strided (quick) or completely (thorough); wider types by boundary-value pairs "
+                  "All 8-bit operand pairs are enumerated in every lane position; 16-bit pairs strided (quick) or completely (thorough, release profile; every 16th pair in the overflow-checking profile, where the operators that panic on overflow are left out of this sweep); wider types by boundary-value pairs "
                   "and boundary-biased random values. Failures shrink to a minimal operand tuple saved as a replay file. Exploration, not proof: exhaustive only where the "
                   "evidence says so.",
     "level_note": "Trusted: rustc's integer primitives and their panic behaviour under the two profiles, proptest, the harness. For reductions (element_sum/product, dot, "
